@@ -50,6 +50,11 @@ CHECKS = {
             "DESIGN.md 6/C12",
             "Generated histories of set_location (listed or unknown pack; empty, ASCII and multi-byte UTF-8 locations up to exactly 213 bytes, restore) and reopen are applied to manifests standalone or inside container files at small and large offsets; after every step the return value, the byte diff against the previous file (only bytes 38..256 of that pack info may change), the library's view of all pack infos, ManifestPack::check, ContainerPack::check, the independent decoder's CRC/blake3 verification and, when the directory pack is reachable, the full container content are compared with the model.",
             "Trusts proptest, the model map and the independent decoder. Locations longer than 213 bytes are inadmissible and not generated. Container-level reads are only asserted while the directory pack is reachable."),
+    "C14": ("E1-proptest", "exploration",
+            "property-based testing (proptest) with a differential oracle: independent decoder vs. model; committed reference corpus vs. current reader",
+            "DESIGN.md 6/C14 and 3",
+            "(a) Generated containers written by the current creator are decoded, file by file, by an independent decoder that shares no code with the library and asserts the on-disk layout (a change applied symmetrically to writer and reader passes round-trips but fails here); it must recover exactly the model. (b) 60 reference containers written by the pinned version (all packagings, compressions, store kinds, property kinds, variants, sorted stores, references, extra packs) are read by the current reader and must dump to the committed expected content and verify.",
+            "Trusts the independent decoder (written from spec/*.rst, divergences documented in DESIGN.md 3 and confirmed by a separate Python decode) and the blake3/lz4/xz2/zstd crates. Corpus cases are those the pinned writer wrote correctly (decoder == model); produced from fc3306d plus the cfg-guarded hooks commit only."),
 }
 
 NOT_YET = {
